@@ -58,26 +58,48 @@ func safeEval(p *prop, op string, args []string) string {
 			pollute(op, args)
 		}
 		r := p.eval(op, args)
-		if p.par != nil && p.par(op) && r != "BAD-CASE" && parPick(op, args) {
-			const n = 6
-			out := make(chan string, n)
-			start := make(chan struct{})
-			for i := 0; i < n; i++ {
-				go func() {
-					defer func() {
-						if recover() != nil {
-							out <- "PANIC"
+		if p.par != nil && p.par(op) && r != "BAD-CASE" {
+			if parPick(op, args) {
+				// this case and the last few OTHER cases, all at once: every one must observe what it observed
+				// when it ran alone (the same inputs in parallel would hide a shared result buffer)
+				type job struct {
+					op   string
+					args []string
+					want string
+				}
+				jobs := []job{{op, args, r}, {op, args, r}}
+				for _, c := range recentCases {
+					jobs = append(jobs, job{c.op, c.args, c.r})
+				}
+				out := make(chan string, len(jobs))
+				start := make(chan struct{})
+				for _, j := range jobs {
+					j := j
+					go func() {
+						defer func() {
+							if recover() != nil {
+								out <- "PANIC in parallel evaluation of " + j.op
+							}
+						}()
+						<-start
+						if got := p.eval(j.op, j.args); got != j.want {
+							out <- "sequential: " + j.want + " parallel: " + got
+							return
 						}
+						out <- ""
 					}()
-					<-start
-					out <- p.eval(op, args)
-				}()
+				}
+				close(start)
+				for range jobs {
+					if o := <-out; o != "" && !strings.HasPrefix(r, "PARALLEL-EVALUATION-DIFFERS") {
+						r = "PARALLEL-EVALUATION-DIFFERS " + o
+					}
+				}
 			}
-			close(start)
-			for i := 0; i < n; i++ {
-				if o := <-out; o != r {
-					r = "PARALLEL-EVALUATION-DIFFERS sequential: " + r + " parallel: " + o
-					break
+			if !strings.HasPrefix(r, "PARALLEL-EVALUATION-DIFFERS") {
+				recentCases = append(recentCases, recentCase{op, args, r})
+				if len(recentCases) > 5 {
+					recentCases = recentCases[1:]
 				}
 			}
 		}
@@ -94,6 +116,14 @@ func safeEval(p *prop, op string, args []string) string {
 		return "HANG"
 	}
 }
+
+type recentCase struct {
+	op   string
+	args []string
+	r    string
+}
+
+var recentCases []recentCase
 
 func parPick(op string, args []string) bool {
 	h := fnv.New32a()
